@@ -820,6 +820,11 @@ func (cc *Conn) checkMyMessageID(req *pool.Message) {
 func (cc *Conn) checkResponseCache(req *pool.Message, w *responsewriter.ResponseWriter[*Conn]) (bool, error) {
 	if req.Type() == message.Confirmable || req.Type() == message.NonConfirmable {
 		if ok, err := cc.getResponseFromCache(req.MessageID(), w.Message()); ok {
+			if req.Type() == message.NonConfirmable && w.Message().Code() == codes.Empty && w.Message().Type() == message.NonConfirmable {
+				// the request was processed and not answered: its duplicate is silently ignored (RFC 7252 4.5)
+				w.Message().SetModified(false)
+				return true, nil
+			}
 			w.Message().SetMessageID(req.MessageID())
 			w.Message().SetType(message.NonConfirmable)
 			if req.Type() == message.Confirmable {
@@ -842,7 +847,7 @@ func sendJustAcknowledgeMessage(reqType message.Type, w *responsewriter.Response
 	return reqType == message.Confirmable && !w.Message().IsModified()
 }
 
-func (cc *Conn) processResponse(reqType message.Type, reqMessageID int32, w *responsewriter.ResponseWriter[*Conn]) error {
+func (cc *Conn) processResponse(reqType message.Type, reqMessageID int32, isRequest bool, w *responsewriter.ResponseWriter[*Conn]) error {
 	switch {
 	case isPongOrResetResponse(w):
 		if reqType == message.Confirmable {
@@ -868,7 +873,18 @@ func (cc *Conn) processResponse(reqType message.Type, reqMessageID int32, w *res
 		}
 		return nil
 	case !w.Message().IsModified():
-		// don't send response
+		// don't send response - but remember a non-confirmable request, so that a duplicate of it is recognised:
+		// without a reply there is nothing else to recognise it by, and the handler would run once per copy
+		if reqType == message.NonConfirmable && isRequest {
+			marker := cc.AcquireMessage(cc.Context())
+			defer cc.ReleaseMessage(marker)
+			marker.SetCode(codes.Empty)
+			marker.SetType(message.NonConfirmable)
+			marker.SetMessageID(reqMessageID)
+			if err := cc.addResponseToCache(reqMessageID, marker); err != nil {
+				return fmt.Errorf("cannot cache response: %w", err)
+			}
+		}
 		return nil
 	}
 
@@ -916,9 +932,10 @@ func (cc *Conn) handleReq(w *responsewriter.ResponseWriter[*Conn], req *pool.Mes
 	w.Message().SetModified(false)
 	reqType := req.Type()
 	reqMessageID := req.MessageID()
+	isRequest := req.Code() >= codes.GET && req.Code() < codes.Code(0x20)
 	cc.handle(w, req)
 
-	err := cc.processResponse(reqType, reqMessageID, w)
+	err := cc.processResponse(reqType, reqMessageID, isRequest, w)
 	if err != nil {
 		cc.closeConnection()
 		cc.errors(fmt.Errorf(errFmtWriteResponse, err))
